@@ -164,8 +164,11 @@ func stateful(c map[string]any) map[string]any {
 	id := fmt.Sprintf("tok%d", tokN)
 	t := &token.Stateful{Token: id, Group: s(c["T"]), IncludeSubgroups: b(c["sub"]), Permissions: []string{"present"},
 		Expires: when(s(c["exp"])), NotBefore: when(s(c["nbf"]))}
-	if s(c["tuser"]) != "absent" {
+	if s(c["tuser"]) == "tu" {
 		u := "tu"
+		t.Username = &u
+	} else if s(c["tuser"]) == "empty" {
+		u := ""
 		t.Username = &u
 	}
 	if _, err := token.Update(t, ""); err != nil {
